@@ -107,7 +107,7 @@ func judgeRegion(c *fw.Ctx, enc string, seq gts.Sequence, seqB []byte, ss []mode
 	return true
 }
 
-func (m c08) checkResize(c *fw.Ctx, loc gts.Location, seqB []byte, kind string, p, q int) {
+func (m c08) checkResize(c *fw.Ctx, loc gts.Location, reg gts.Region, seqB []byte, kind string, p, q int) {
 	mod := mkMod(kind, p, q)
 	enc := fmt.Sprintf("Resize loc=%s mod=%s seq=%q", model.SafeString(loc), mod.String(), seqB)
 	c.Begin(enc)
@@ -121,7 +121,9 @@ func (m c08) checkResize(c *fw.Ctx, loc gts.Location, seqB []byte, kind string, 
 	c.Bucket("mod:" + kind)
 	seq := gts.New(nil, nil, append([]byte(nil), seqB...))
 	var res gts.Region
-	pn, val, site, stack := fw.Guard(func() { res = loc.Region().Resize(mod) })
+	// reg is shared by all the modifiers applied to this location: resizing
+	// must not change the region it is applied to.
+	pn, val, site, stack := fw.Guard(func() { res = reg.Resize(mod) })
 	if pn {
 		c.ViolateX("Resize:"+panicClass(site, val), enc, "no panic", fmt.Sprint(val), stack, nil)
 		return
@@ -341,6 +343,7 @@ func (m c08) Run(c *fw.Ctx) {
 		}
 		for _, loc := range variants {
 			n := loc.Len()
+			reg := loc.Region()
 			for _, kind := range modKinds {
 				for p := -n - 3; p <= n+3; p++ {
 					for q := -n - 3; q <= n+3; q++ {
@@ -354,7 +357,7 @@ func (m c08) Run(c *fw.Ctx) {
 						if (p+q)&1 == 1 {
 							sb = seqA
 						}
-						m.checkResize(c, loc, sb, kind, p, q)
+						m.checkResize(c, loc, reg, sb, kind, p, q)
 					}
 				}
 			}
@@ -408,7 +411,14 @@ func (m c08) Run(c *fw.Ctx) {
 		if c.Replaying() && c.Seq() != c.ReplaySeq {
 			continue
 		}
-		m.checkResize(c, loc, seqB, kind, p, q)
-		m.checkLocator(c, rand.New(rand.NewSource(lseed)), tab, seqB)
+		lr := rand.New(rand.NewSource(lseed))
+		reg := loc.Region()
+		m.checkResize(c, loc, reg, seqB, kind, p, q)
+		for extra := 0; extra < 2; extra++ {
+			// further modifiers on the same region value.
+			k2 := modKinds[lr.Intn(len(modKinds))]
+			m.checkResize(c, loc, reg, seqB, k2, lr.Intn(2*(n+3)+1)-(n+3), lr.Intn(2*(n+3)+1)-(n+3))
+		}
+		m.checkLocator(c, lr, tab, seqB)
 	}
 }
